@@ -140,26 +140,32 @@ def check(ctx):
         nrec = 0
         for s in stores:
             v = s.ast.value
-            if isinstance(v, ast.Call) and ct in an.callees(ct, g.nodes_for(v)[0]):
-                nrec += 1
-                a = v.args
-                ok = len(a) == 2 and rooted_at_param(ct, a[0], {bparam}, s) and any(k == "iter" for k, _ in value_sources(ct, a[1], s))
-                ctx.ob("recursion.argument-order", ct, v, ok, "recurses with (base value, included value)" if ok else
-                       "the recursive merge swaps or replaces its arguments: nested included values lose", node=s)
-                both = []
-                for t, tr in dominating_guards(an, ct, s):
-                    if not tr:
-                        continue
-                    e = expand_aliases(ct, t.ast, t)      # `both_nested = isinstance(a, dict) and isinstance(b, dict)`
-                    conj = e.values if isinstance(e, ast.BoolOp) and isinstance(e.op, ast.And) else [e]
-                    both += [c for c in conj if isinstance(c, ast.Call) and ast.unparse(c.func) == "isinstance" and len(c.args) == 2
-                             and "dict" in ast.unparse(c.args[1])]
-                ctx.ob("recursion.only-for-two-maps", ct, v, len(both) >= 2, "recursion only when both sides are maps" if len(both) >= 2 else
-                       "recursion is not restricted to map/map conflicts", node=s)
-            else:
-                srcs = value_sources(ct, v, s)
-                ok = bool(srcs) and all(k == "iter" for k, _ in srcs)
-                ctx.ob("included-wins", ct, s.ast, ok, "the included tree's value is taken" if ok else
+            leaves = [("expr", v)] if isinstance(v, ast.Call) else value_sources(ct, v, s)
+            plain_ok, plain_seen = True, False
+            for k_, leaf in leaves:
+                if k_ == "expr" and isinstance(leaf, ast.Call) and g.nodes_for(leaf) and ct in an.callees(ct, g.nodes_for(leaf)[0]):
+                    nrec += 1
+                    at = g.nodes_for(leaf)[0]
+                    a = leaf.args
+                    ok = len(a) == 2 and rooted_at_param(ct, a[0], {bparam}, at) and any(k == "iter" for k, _ in value_sources(ct, a[1], at))
+                    ctx.ob("recursion.argument-order", ct, leaf, ok, "recurses with (base value, included value)" if ok else
+                           "the recursive merge swaps or replaces its arguments: nested included values lose", node=at)
+                    both = []
+                    for t, tr in dominating_guards(an, ct, at):
+                        if not tr:
+                            continue
+                        e = expand_aliases(ct, t.ast, t)      # `both_nested = isinstance(a, dict) and isinstance(b, dict)`
+                        conj = e.values if isinstance(e, ast.BoolOp) and isinstance(e.op, ast.And) else [e]
+                        both += [c for c in conj if isinstance(c, ast.Call) and ast.unparse(c.func) == "isinstance" and len(c.args) == 2
+                                 and "dict" in ast.unparse(c.args[1])]
+                    ctx.ob("recursion.only-for-two-maps", ct, leaf, len(both) >= 2, "recursion only when both sides are maps" if len(both) >= 2 else
+                           "recursion is not restricted to map/map conflicts", node=at)
+                else:
+                    plain_seen = True
+                    if k_ != "iter":
+                        plain_ok = False
+            if plain_seen:
+                ctx.ob("included-wins", ct, s.ast, plain_ok, "the included tree's value is taken" if plain_ok else
                        "a non-recursive branch stores %s instead of the included value: the including document wins" % ast.unparse(v), node=s)
             # the key stored is the key visited
             t = s.ast.targets[0]
@@ -298,8 +304,15 @@ def check(ctx):
         if args is None:
             continue
         nget += 1
-        has_fmt = bool(args) and isinstance(args[0], ast.Name) and args[0].id == fparam
-        has_opts = any(k.arg is None and isinstance(k.value, ast.Name) and k.value.id == kw for k in kws)
+        def is_param(e, pname):
+            if not isinstance(e, ast.Name):
+                return False
+            if e.id == pname:
+                return True
+            srcs = value_sources(loads_fn, e, None)
+            return bool(srcs) and all(k == "param" and p_ == pname for k, p_ in srcs)
+        has_fmt = bool(args) and is_param(args[0], fparam)
+        has_opts = any(k.arg is None and is_param(k.value, kw) for k in kws)
         ctx.ob("includes.same-format-options", loads_fn, x, has_fmt and has_opts,
                "the formatter is built from the caller's format and options" if has_fmt and has_opts else
                "a formatter is built %s: included files are parsed differently from the document that names them" % (
